@@ -103,3 +103,18 @@ def class_methods(relpath, classname, methods, namespace, encoded=None, transfor
             exec(compile(mod, path, 'exec'), namespace)
             return namespace[classname]
     raise LookupError('class %s not found in %s' % (classname, relpath))
+
+
+def load_module(relpath, modname, encoded=None, transform=None, package='pyiga'):
+    """exec a whole (pure-python) module of /repo from its current source text into a fresh module object"""
+    import types
+    src = read(relpath)
+    if encoded is not None:
+        encoded.add(os.path.join(REPO, relpath), '(whole module)', 1, src.count('\n') + 1, src)
+    if transform is not None:
+        src = transform(src)
+    mod = types.ModuleType(modname)
+    mod.__file__ = os.path.join(REPO, relpath)
+    mod.__package__ = package
+    exec(compile(src, mod.__file__, 'exec'), mod.__dict__)
+    return mod
